@@ -276,6 +276,9 @@ def gen_stmt(r, st, closures, counter):
         s, v = gen_expr(r, st)
         if big and size_of(v) > size_of(xv):
             return None
+        # keep histories interesting: rarely replace a container by a leaf
+        if size_of(xv) > 1 and size_of(v) == 1 and r.random() < 0.85:
+            return None
         st[x] = v
         return "%s = %s" % (x, s), kind, [x]
     if kind == "idx":
@@ -363,6 +366,8 @@ def gen_stmt(r, st, closures, counter):
         y = r.choice([n for n in names if n != x])
         s, v = gen_expr(r, st)
         if big and size_of(v) > 6:
+            return None
+        if size_of(v) == 1 and r.random() < 0.7:
             return None
         st[x] = deep(v)
         st[y] = deep(v)
